@@ -684,6 +684,11 @@ func (g *schemaGenerator) generateStructType(t *schemas.Type, scope nameScope) (
 
 	uniqueNames := make(map[string]int, len(t.Properties))
 
+	// The field that collects additional properties is recognised by its name: no property
+	// may be declared under it (additional_properties would otherwise redeclare it, or be
+	// taken for the collector by the unmarshalers).
+	uniqueNames[additionalProperties] = 1
+
 	var structType codegen.StructType
 
 	for _, name := range sortedKeys(t.Properties) {
